@@ -9,6 +9,8 @@
 (*              function) followed, in the same attempt, by the own reply  *)
 (*   "foreign"  only a well-formed reply that is not ours                  *)
 (*   "nothing"  no byte arrives before the timeout                         *)
+(*   "late"     nothing arrives before the timeout; the own reply arrives  *)
+(*              afterwards (it is then a stale frame for whatever follows) *)
 (*   "short"    a strict prefix of the own reply, then nothing             *)
 (*   "garbage"  bytes that are no frame                                    *)
 (*   "oserror"  the transport raises while sending or receiving            *)
@@ -21,9 +23,9 @@
 (***************************************************************************)
 EXTENDS Naturals, Sequences, FiniteSets
 
-Outcomes == {"own", "ownExc", "staleOwn", "foreign", "nothing", "short", "garbage", "oserror", "close"}
+Outcomes == {"own", "ownExc", "staleOwn", "foreign", "nothing", "late", "short", "garbage", "oserror", "close"}
 Good(o) == o \in {"own", "ownExc", "staleOwn"}
-Empty(o) == o \in {"nothing"}
+Empty(o) == o \in {"nothing", "late"}
 Invalid(o) == o \in {"foreign", "short", "garbage"}
 Broken(o) == o \in {"oserror", "close"}
 
@@ -53,7 +55,7 @@ Run(cfg, script, k) ==      \* returns [sent, result]
     [] o \in {"short", "garbage"} ->
          IF o = "garbage" /\ "RaisesOnGarbage" \in CDev THEN [sent |-> k, result |-> "raised"]
          ELSE IF cfg.roi /\ more THEN Run(cfg, script, k + 1) ELSE [sent |-> k, result |-> "error"]
-    [] o = "nothing" ->
+    [] o \in {"nothing", "late"} ->
          IF retryEmpty /\ more THEN Run(cfg, script, k + 1) ELSE [sent |-> k, result |-> "error"]
     [] Broken(o) -> [sent |-> k, result |-> "error"]
 
